@@ -17,7 +17,8 @@ import os
 
 import common
 from common import Check, standard_proof_step, TRUSTED_COMMON
-from c10 import IMPORTS as IMPORTS0, coq_codes, corr_term, guarded, harness_problems, job_defs, job_replay_info, make_jobs, run_jobs
+from c10 import (IMPORTS as IMPORTS0, DICT_IMPORTS, coq_codes, corr_term, dict_defs, dict_term, guarded, harness_problems, job_defs,
+                 job_replay_info, make_jobs, run_jobs)
 
 IMPORTS = IMPORTS0 + "\nFrom XV Require Import Proofs.ParserDoc."
 EXTRAS_C15 = ["wildknown", "wrappers", "required", "wildtail", "anytype", "noinitwild", "fixed", "textattr", "union"]
@@ -34,7 +35,7 @@ SITE_CLASS = {
 
 def run(ck: Check):
     ck.level = "proof"
-    obligations, discharged, axioms = standard_proof_step(ck, extra_targets=["Model/ParserCorr.vo", "Proofs/ParserWitness.vo", "Proofs/ParserDoc.vo"])
+    obligations, discharged, axioms = standard_proof_step(ck, extra_targets=["Model/ParserCorr.vo", "Proofs/ParserWitness.vo", "Proofs/ParserDoc.vo", "Proofs/DictLeakSkip.vo"])
     q = ck.quick
     budget = {"truncations": 24 if q else 120, "flips": 20 if q else 60, "structural": 22 if q else 50, "prefix": 3 if q else 6,
               "random": 6 if q else 12, "event_faults": 10 if q else 25, "json_truncations": 10 if q else 40,
@@ -160,11 +161,40 @@ def run(ck: Check):
         for d in j.get("json_docs", []):
             guarded(ck, f"json classification ({d.get('what')})", lambda: classify_json(j, d))
 
+    # ---------------------------------------------------------------- dictionary decoder: model + theorem
+    dterms, dmeta = [], []
+    for j in res["jobs"]:
+        if not (j.get("universe") and j.get("generics")):
+            continue
+        for d in j.get("json_docs", []):
+            if d.get("jterm") is None:
+                continue
+            if d["dobs"] is None:
+                continue           # an exception class outside the model's outcome type: reported by classify_json above
+            dterms.append(dict_term(j, d["dcfg"], d["clazz_none"], d["jterm"], d["dobs"]))
+            dmeta.append((j, d))
+    dcodes = coq_codes(f"c15_dict_{os.getpid()}", dict_defs(res), "dict_case", "dict_code_guarded", dterms, imports=DICT_IMPORTS, shard=80)
+    dict_guarded, dict_not_closed = 0, set()
+    for (j, d), code in zip(dmeta, dcodes):
+        rp = {"job": job_replay_info(j), "case": {"json_b64": d["doc_b64"], "what": d["what"]}}
+        dict_guarded += bool(code & 4)
+        if code & 8:
+            dict_not_closed.add(j["id"])
+        if code & 1:
+            ck.failure("corr-dict-decoder", f"DictLeak model and DictDecoder disagree on the outcome class ({d['what']}): impl {d['dobs']} "
+                                            f"{d['res'].get('msg')}", rp)
+        elif code & 2 and code & 4:
+            ck.failure("dict-theorem-contradicted", f"dict_wf holds and the decoder raised {d['dobs']} ({d['what']})", rp)
+    for jid in sorted(dict_not_closed):
+        j = res["jobs"][jid]
+        ck.failure("exported-metadata-not-wf", f"dict_wf (hypothesis of C15_dict_outcome_documented) is false of the metadata built for "
+                                               f"{j['model']} seed {j['seed']}", {"job": job_replay_info(j)})
+
     for jid in sorted(not_wf):
         j = res["jobs"][jid]
         ck.failure("exported-metadata-not-wf", f"wf_universe (hypothesis of C15_outcome_documented) is false of the metadata the real XmlContext "
                                                f"built for {j['model']} seed {j['seed']}", {"job": job_replay_info(j)})
-    ck.cov["evaluations"] = len(terms) + 2 * stats["docs"] + jstats["docs"]
+    ck.cov["evaluations"] = len(terms) + 2 * stats["docs"] + jstats["docs"] + len(dterms)
     ck.cov["distinct_nontrivial"] = len({(j["id"], c["replay"].get("what"), c.get("handler")) for j, c in meta}) + stats["docs"] + jstats["docs"]
     ck.cov["rule"] = ("distinct = faulted documents (each run through both XML handlers / the JSON parser) + distinct binding-layer streams "
                       "(events delivered by a real handler for a faulted document, or a mutated recorded stream) under correspondence")
@@ -173,6 +203,8 @@ def run(ck: Check):
                                     "undocumented_binding_outcomes_by_class": undocumented,
                                     "cases_satisfying_all_guards_of_C15_outcome_documented": guards_true,
                                     "jobs_whose_exported_metadata_fails_wf_universe": len(not_wf),
+                                    "dict_decoder_correspondence_cases": len(dterms),
+                                    "dict_cases_satisfying_hypotheses_of_C15_dict_outcome_documented": dict_guarded,
                                     "outcomes": {" / ".join(map(str, k)): v for k, v in sorted(outcome_hist.items(), key=str)}}
     ck.cov["samples"] = [{"model": j["model"], "seed": j["seed"], "what": c["replay"].get("what"), "tag": c["tag"], "observed": c["obs"][:120]}
                          for (j, c) in meta[:6]]
